@@ -1,4 +1,5 @@
 """C14 — no input crashes, wedges or confuses an instance (census + structural clauses)."""
+import os
 import re
 import mir
 import sql
@@ -377,6 +378,7 @@ def run(P, C, tier):
     r8_paging_length(P, C)
     r9_value_kinds(P, C)
     r10_insert_field(P, C)
+    r11_grammar_value_kinds(P, C)
 
 
 def r8_paging_length(P, C):
@@ -706,3 +708,97 @@ def json_source_ok(b, t):
     if u[0] == "call":
         return True, "result of %s" % mir.short(u[1])
     return False, "unrecognised producer of JSON text: %s" % term_str(u)[:60]
+
+
+KINDS = {"variable": "Variable", "float": "Float", "string": "String", "integer": "Integer", "boolean": "Boolean", "null": "Null", "unsigned_int": "Integer"}
+
+
+def _pest_rules(path):
+    try:
+        txt = open(path).read()
+    except OSError:
+        return {}
+    txt = re.sub(r'"(?:\\.|[^"\\])*"', lambda m: '"' + " " * (len(m.group(0)) - 2) + '"', txt)
+    txt = re.sub(r"'(?:\\.|[^'\\])'", "   ", txt)
+    txt = re.sub(r"//[^\n]*", "", txt)
+    rules = {}
+    for m in re.finditer(r"(?m)^\s*(\w+)\s*=\s*[_@$!]?\{", txt):
+        i = m.end()
+        depth = 1
+        j = i
+        while j < len(txt) and depth:
+            if txt[j] == "{":
+                depth += 1
+            elif txt[j] == "}":
+                depth -= 1
+            j += 1
+        rules[m.group(1)] = txt[i:j - 1]
+    return rules
+
+
+def _pest_kinds(rules, name, depth=0):
+    """value kinds a grammar rule can produce (through at most 3 levels of rule references)"""
+    out = set()
+    body = re.sub(r'"[^"]*"', " ", rules.get(name, ""))
+    for ident in re.findall(r"[A-Za-z_][A-Za-z_0-9]*", body):
+        if ident in KINDS:
+            out.add(ident)
+        elif ident in rules and depth < 3 and ident != name and re.search(r"value|literal|scalar", ident):
+            out |= _pest_kinds(rules, ident, depth + 1)
+    return out
+
+
+def r11_grammar_value_kinds(P, C):
+    import facts as _facts
+    C.rule("R11", "the grammar and the parser agree on the kinds of value a before/after cursor can hold: every kind the grammar rule of the clause can produce has an "
+                  "explicit arm in the type check of EntityQuery::finalize (its catch-all arm is unreachable!: a kind the grammar lets through, e.g. null, panics "
+                  "inside the database task and no later request is answered)")
+    repo = P.facts.get("repo_root") if hasattr(P, "facts") and isinstance(getattr(P, "facts", None), dict) and P.facts.get("repo_root") else _facts.REPO
+    try:
+        fin = P.body("query_parser::EntityQuery::finalize")
+    except mir.MissingAnchor as e:
+        C.anchor_missing("R11", "finalize", e)
+        return
+    root = repo
+    rules = _pest_rules(os.path.join(root, "src/database/query_language/query.pest"))
+    if not rules or "before" not in rules or "after" not in rules:
+        C.anchor_missing("R11", "query.pest", "grammar rules before/after not found")
+        return
+    # handled kinds: the switch on the ParamValue of a cursor value whose other edge panics
+    handled = None
+    for sb in sorted(fin.live_blocks()):
+        t = fin.blocks[sb]["t"]
+        if t["k"] != "switch":
+            continue
+        term = fin.switch_term(sb, expand_vars=True)
+        if term[0] != "discr" or not term[2].endswith("ParamValue"):
+            continue
+        # the matched value is an element of the cursor list: a collection defined as `&<params>.before` / `&<params>.after`
+        is_cursor = re.search(r"\.(before|after)\b", term_str(term)) is not None
+        for sx in mir.subterms(term[1]):
+            if sx[0] == "var" and len(sx) > 2:
+                col = mir.elem_collection(fin, sx)
+                cols = [col] if col is not None else []
+                if col is not None and col[0] == "var" and len(col) > 2:
+                    cols = fin.var_defs(col)
+                if any(re.search(r"\.(before|after)$", field_path(strip_refs(c_))) for c_ in cols):
+                    is_cursor = True
+        if not is_cursor:
+            continue
+        table = dict(term[3])
+        explicit = {table.get(v) for v, tg in t["targets"]}
+        other = t["otherwise"]
+        panics_ = any(fin.blocks[x]["t"]["k"] == "call" and re.search(r"panicking::|panic", callee_name(fin.blocks[x]["t"])) for x in fin.reachable(other) if x not in fin.reachable(0, avoid_blocks={other}) or True) if other is not None else False
+        # blocks reachable from `other` only: a panic call right there
+        first = fin.blocks[other]["t"] if other is not None else None
+        is_panic_arm = first is not None and ((first["k"] == "call" and re.search(r"panic|unreachable", callee_name(first))) or first["k"] == "unreachable")
+        if is_panic_arm:
+            handled = explicit if handled is None else (handled & explicit)
+    if handled is None:
+        C.ob("R11", "paging-type-check-found", False, fin.loc(), "no match on the ParamValue of a cursor value with a panicking catch-all arm was found in finalize (re-point the rule)")
+        return
+    for clause in ("before", "after"):
+        kinds = _pest_kinds(rules, clause)
+        unhandled = sorted(k for k in kinds if KINDS[k] not in handled and k != "variable")
+        C.ob("R11", "cursor-kinds-handled:%s" % clause, bool(kinds) and not unhandled, "src/database/query_language/query.pest",
+             "grammar kinds of a `%s` value: %s; explicit arms of the type check: %s; kinds that reach unreachable!(): %s" % (clause, sorted(kinds), sorted(x for x in handled if x), unhandled or "none"))
